@@ -255,10 +255,10 @@ def method(cname, name, ptypes=None):
     return Fn(cname, TU, name, flt='nano::parameter_t::' + name, select=sel, self_struct='struct nv_parameter', **common())
 
 
-def T(name, fns, solver='cadical', **kw):
+def T(name, fns, solver='cadical', prelude=None, **kw):
     # cadical decides the float <-> integer conversion queries of the update targets about 4x faster than minisat;
     # minisat (cbmc's default) is much faster on the string-assignment target (uninterpreted parsing functions)
-    return Target(name, fns, H, cbmc_flags=(['--sat-solver', solver] if solver else []), **kw)
+    return Target(name, fns, prelude or H, cbmc_flags=(['--sat-solver', solver] if solver else []), **kw)
 
 
 def check_targets():
@@ -283,6 +283,35 @@ def assign_str_fns(cname='parameter_assign_str'):
     d = astload.find_definition(TU, 'nano::parameter_t::operator=', 'operator=', sel)
     ufns, udecls = upd_fns(astload.callees(d, 'update'))
     return [method(cname, 'operator=', ['nano::string_t']), upd_enum()] + with_helpers(ufns, udecls)
+
+
+HPE = 'specs/C19/param_enum.h'
+
+
+def enum_param_targets(q, enums):
+    sn = q.split('::')[-1]
+    e = re.escape(q)
+
+    def assign():
+        c = dict(common())
+        c['types'] = TYPES + [(r'^' + e + r'$', 'int64_t')]
+        c['members'] = MEMBERS + [(r'^logical_error\|', '@throw'), (r'^operator=\|nano::parameter_t', 'parameter_assign_str!')]
+        c['calls'] = common()['calls'] + [(r'^scat\|nano::string_t \(const ' + e + r' &\)', 'nv_scat_enum_t((int64_t){0})!^')]
+        fe = Fn('parameter_assign_enum_t', enums.driver2(), 'operator=', flt='nano::parameter_t::operator=', select=lambda d: astload.template_args(d)[:1] == [q],
+                self_struct='struct nv_parameter', **c)
+        return [fe] + assign_str_fns()
+
+    def value():
+        c = dict(common())
+        c['types'] = TYPES + [(r'^' + e + r'$', 'int64_t'), (r'^(std::)?(string_view|basic_string_view<char(, std::char_traits<char>\s*)?>)$', 'struct nv_str')]
+        c['members'] = MEMBERS + [(r'^logical_error\|', '@throw'), (r'^operator basic_string_view\|', '{*self}')]
+        c['calls'] = common()['calls'] + [(r'^from_string\|' + e + r' \(const std::string_view &\)', 'nv_from_string_enum({&0})!^'),
+                                          (r'^ctor\|[^|]*basic_string_view<char[^|]*\|void \(const (std::)?basic_string_view<char[^|]*&\)', '{0}')]
+        return [Fn('parameter_value_enum_t', enums.driver2(), 'value', flt='nano::parameter_t::value', select=lambda d: astload.template_args(d)[:1] == [q],
+                   self_struct='struct nv_parameter', **c)]
+    return [Target(f'enum_{sn}_assign', assign, HPE, enforce='parameter_assign_enum_t', replace=['parameter_assign_str'],
+                   note=f'parameter_t::operator=({q})'),
+            T(f'enum_{sn}_value', value, prelude=HPE, enforce='parameter_value_enum_t', note=f'parameter_t::value<{q}>()')]
 
 
 def build(tier):
@@ -353,6 +382,9 @@ def build(tier):
     targets += clone_targets()
     import enums
     targets += enums.targets()
+    # parameter_t::operator=(tenum) / value<tenum>() for EVERY enumeration with a table (instantiated by the generated driver)
+    for q in sorted(enums.tables()):
+        targets += enum_param_targets(q, enums)
     import clones
     targets += clones.targets()
     import factory
